@@ -60,6 +60,10 @@ inline const Contains &as_Contains(const Basic &b) { return *b.ct_; }
 struct Pow { RCPBasic base_, exp_; hash_t __hash__() const; bool __eq__(const Basic &o) const; int compare(const Basic &o) const; };
 struct Interval { RCPBasic start_, end_; bool left_open_, right_open_; hash_t __hash__() const; bool __eq__(const Basic &o) const; int compare(const Basic &o) const; };
 struct Add { RCPBasic coef_; umap_basic_num dict_; hash_t __hash__() const; bool __eq__(const Basic &o) const; };
+/* type tests a maintenance edit may use on a child */
+#define IS_A_CODE(C, code) inline bool is_a_##C(const Basic &b) { return b.type_code_ == code; }
+IS_A_CODE(Infty, SYMENGINE_INFTY) IS_A_CODE(Integer, SYMENGINE_INTEGER) IS_A_CODE(Rational, SYMENGINE_RATIONAL) IS_A_CODE(RealDouble, SYMENGINE_REAL_DOUBLE) IS_A_CODE(Symbol, SYMENGINE_SYMBOL) IS_A_CODE(NaN, SYMENGINE_NOT_A_NUMBER)
+inline bool is_a_Number(const Basic &b) { return b.type_code_ <= SYMENGINE_NUMBER_WRAPPER; }
 inline bool is_a_Pow(const Basic &b) { return b.type_code_ == SYMENGINE_POW; }
 inline bool is_a_Interval(const Basic &b) { return b.type_code_ == SYMENGINE_INTERVAL; }
 inline bool is_a_Add(const Basic &b) { return b.type_code_ == SYMENGINE_ADD; }
@@ -80,6 +84,9 @@ inline bool is_same_type(const TwoArgBasic &a, const Basic &b) { return a.get_ty
 inline bool is_same_type(const OneArgFunction &a, const Basic &b) { return a.get_type_code() == b.get_type_code(); }
 inline const TwoArgBasic &as_TwoArgBasic(const Basic &b) { return *b.ta_; }
 inline const OneArgFunction &as_OneArgFunction(const Basic &b) { return *b.oa_; }
+/* std::vector<RCP<const Basic>> (argument lists, sets): at most 3 elements, pointer iterators */
+struct vec3 { mutable RCPBasic d[3]; unsigned n; unsigned size() const { return n; } RCPBasic *begin() const { return &d[0]; } RCPBasic *end() const { return &d[0] + n; } };
+#include "ordered.inc"       /* ordered_compare (dict.h), instantiated for the vector stub */
 #include "keyless.inc"       /* struct RCPBasicKeyLess (basic.h), verbatim */
 #include "comp.inc"
 /* virtual dispatch (vtable not modelled): abstract children answer from their ghost contract data */
@@ -193,5 +200,23 @@ extern "C" void h_keyless(void)
   OBL("C02.RCPBasicKeyLess.incomparable_iff_eq", (!xy && !yx) == eq(*x, *y));
   OBL("C02.RCPBasicKeyLess.incomparability_is_transitive", !((!xy && !yx) && (!yz && !zy)) || (!xz && !less(z, x)));
   REACHABLE("h_keyless");
+}
+#endif
+
+#if CLS == 9
+/* ordered_compare on argument containers: shorter first, then element-wise by unified_compare — a three-way total order
+   consistent with element-wise eq, given the children's contract */
+static void any_vec3(vec3 &v) { v.n = nondet_uint(); __CPROVER_assume(v.n <= 3); v.d[0] = pick(); v.d[1] = pick(); v.d[2] = pick(); }
+static bool vec_eq(const vec3 &a, const vec3 &b) { if (a.n != b.n) return false; for (unsigned i = 0; i < 3; i++) if (i < a.n && a.d[i]->rank != b.d[i]->rank) return false; return true; }
+extern "C" void h_ordered_compare(void)
+{
+  any_children(); vec3 X, Y, Z; any_vec3(X); any_vec3(Y); any_vec3(Z);
+  verif_may_throw = false;
+  int xy = ordered_compare(X, Y), yx = ordered_compare(Y, X), yz = ordered_compare(Y, Z), xz = ordered_compare(X, Z);
+  OBL("C02.ordered_compare.cmp.range", xy >= -1 && xy <= 1);
+  OBL("C02.ordered_compare.cmp.zero_iff_elementwise_eq", (xy == 0) == vec_eq(X, Y));
+  OBL("C02.ordered_compare.cmp.antisymmetric", xy == -yx);
+  OBL("C02.ordered_compare.cmp.transitive", !(xy <= 0 && yz <= 0) || xz <= 0);
+  REACHABLE("h_ordered_compare");
 }
 #endif
